@@ -8,7 +8,8 @@ From Coq Require Import ZArith List Bool Sorted Permutation.
 From Verif Require Import Reloc.RelocModel Sections.SectionModel Sections.ChunkModel Sections.ChunkProofs Sections.JitReloc
   Sections.JitRelocProofs Sections.SectionProofs Sections.SectionTable Sections.CopyProofs
   Sections.ShrinkProofs Sections.StableProofs Sections.CoverProofs Sections.SettleProofs Sections.SectionSummary Sections.SectionExamples
-  Sections.FlagsModel Sections.FlagsProofs Sections.WidthModel Sections.WidthProofs.
+  Sections.FlagsModel Sections.FlagsProofs Sections.WidthModel Sections.WidthProofs Sections.JitCopyModel Sections.JitCopyProofs.
+From VerifGen Require C10Consts.
 Import ListNotations.
 Local Open Scope Z_scope.
 
@@ -84,6 +85,15 @@ Theorem C10_padding_owned : forall h h', wf_holder h -> flatten h = (EOk, h') ->
   forall l1 s l2, h' = l1 ++ s :: l2 -> real_size s <> 0 -> lend_ne 0 l1 = soff s.
 Proof. exact final_padding_owned. Qed.
 Print Assumptions C10_padding_owned.
+
+(* what flatten must NOT change: ids, orders, alignments, buffer sizes, bytes and names of every section stay (`core`), the
+   number and sequence of sections stays; only offsets move and virtual sizes grow (never for an empty section) *)
+Theorem C10_flatten_preserves : forall h h', wf_holder h -> flatten h = (EOk, h') ->
+  Forall wf_sec h' /\
+  Forall2 (fun s s' => (sid s', sorder s', salign s', sbsize s', sdata s', sname s') = (sid s, sorder s, salign s, sbsize s, sdata s, sname s) /\
+                       svsize s <= svsize s' /\ (real_size s = 0 -> svsize s' = svsize s) /\ real_size s <= real_size s') h h'.
+Proof. exact flatten_final_rel. Qed.
+Print Assumptions C10_flatten_preserves.
 
 (* ---- idempotence in full: flatten (flatten h) = flatten h, for every section, empty ones included ---- *)
 Theorem C10_flatten_idempotent : forall h h', wf_holder h -> flatten h = (EOk, h') -> flatten h' = (EOk, h').
@@ -363,6 +373,25 @@ Theorem C10_example_relocate_abs : exists h2,
 Proof. exact ex_relocate_abs. Qed.
 Print Assumptions C10_example_relocate_abs.
 
+(* a conditional jump to an absolute address out of rel32 reach of the chosen base is REFUSED (kRelocOffsetOutOfRange), whatever
+   sites follow: no address-table fallback exists for it and nothing wraps (non-vacuity: C10_example_relocate_expr_rel below) *)
+Theorem C10_unreachable_jcc_refused : forall h tab pos addr rest base text,
+  by_id h 0 = Some text -> forallb (site_in_bounds text) (SRel pos addr :: rest) = true ->
+  ~ (- 2 ^ 31 <= OffsetModel.to_i64 (OffsetModel.wrap 64 (addr - (base + (soff text + pos + CALL_LEN)))) < 2 ^ 31) ->
+  relocate_holder h tab (SRel pos addr :: rest) base = inr ROutOfRange.
+Proof. exact unreachable_jcc_refused. Qed.
+Print Assumptions C10_unreachable_jcc_refused.
+
+(* embed_label_delta (expression) and jz-abs (AbsToRel) sites: the relocated bytes; an unreachable conditional jump is refused
+   (kRelocOffsetOutOfRange, there is no address-table fallback for it), an out-of-bounds site is kInvalidRelocEntry *)
+Theorem C10_example_relocate_expr_rel : exists h2,
+  relocate_holder ex_abs (Some 3) [SExpr 0 2 0 1 5 4; SRel 4 4198400] 4194304 = inl (h2, 8) /\
+  firstn 10 (hd [] (map sdata h2)) = [3; 0; 0; 0; 0; 0; 246; 15; 0; 0] /\
+  relocate_holder ex_abs (Some 3) [SRel 4 1311768467463790320] 4194304 = inr ROutOfRange /\
+  relocate_holder ex_abs (Some 3) [SRel 12 4198400] 4194304 = inr RInvalidEntry.
+Proof. exact ex_relocate_expr_rel. Qed.
+Print Assumptions C10_example_relocate_expr_rel.
+
 (* ---- 32-bit size_t (model only: no 32-bit runtime in the sandbox).  Offsets / virtual sizes are uint64_t on every target, so
    flatten and all layout theorems are width independent; the size_t-typed parts are code_size's result and two casts in
    copy_flattened_data (WidthModel.v, sz = bits of size_t; SectionModel.v is sz = 64) ---- *)
@@ -408,3 +437,49 @@ Theorem C10_clear_flags_pinned_refuted :
   clear_flags_pinned 1 2 = 65533 /\ has_flag (clear_flags_pinned 1 2) 4 = true /\ clear_flags 3 2 = 1.
 Proof. exact clear_flags_pinned_refuted. Qed.
 Print Assumptions C10_clear_flags_pinned_refuted.
+
+(* ---- JitRuntime::_add's OWN copy loop (JitCopyModel.jit_copy: walks the sections by id, copies each buffer, zero-fills to the
+   virtual size, no clipping) installs, cell by cell, exactly what copy_flattened_data(kPadSectionBuffer) does on the same span —
+   for every flattened reachable holder and every span of at least code_size bytes.  So C10_copy_exact / C10_image_total /
+   C10_jit_image_determined speak about the real loop, not about a stand-in. ---- *)
+Theorem C10_jit_copy_agrees : forall h0 h mem m1, reachable h0 -> data_len_ok h0 -> flatten h0 = (EOk, h) ->
+  code_size h <= Z.of_nat (length mem) ->
+  copy_flat h mem (Z.of_nat (length mem)) true false = (EOk, m1) ->
+  length (jit_copy h mem) = length m1 /\ forall c, 0 <= c -> cell (jit_copy h mem) c = cell m1 c.
+Proof. exact jit_copy_agrees. Qed.
+Print Assumptions C10_jit_copy_agrees.
+
+(* ... and so it does on the RELOCATED holder (patched .text, used table slots): JitRuntime::_add with relocations, with its own loop *)
+Theorem C10_relocated_jit_copy_agrees : forall h0 h tab calls base h2 red mem m1,
+  reachable h0 -> data_len_ok h0 -> flatten h0 = (EOk, h) -> relocate_holder h tab calls base = inl (h2, red) ->
+  code_size h <= Z.of_nat (length mem) ->
+  copy_flat h2 mem (Z.of_nat (length mem)) true false = (EOk, m1) ->
+  length (jit_copy h2 mem) = length m1 /\ forall c, 0 <= c -> cell (jit_copy h2 mem) c = cell m1 c.
+Proof. exact relocated_jit_copy_agrees. Qed.
+Print Assumptions C10_relocated_jit_copy_agrees.
+
+Theorem C10_example_jit_copy : exists h m1, flatten ex_h3 = (EOk, h) /\
+  copy_flat h (repeat 205 104) 104 true false = (EOk, m1) /\ jit_copy h (repeat 205 104) = m1.
+Proof. exact jit_copy_example. Qed.
+Print Assumptions C10_example_jit_copy.
+
+(* ---- translator tie: the constants the model hard-codes equal those re-extracted from /repo's headers and from a freshly
+   initialised holder on THIS run (coq/gen/C10Consts.v is regenerated by the check; a changed limit / enumerator / initial field /
+   placeholder encoding makes this theorem fail before anything else is compared) ---- *)
+Theorem C10_constants_match :
+  C10Consts.g_max_name = MAX_NAME /\ C10Consts.g_name_cells = Z.of_nat NAME_CELLS /\ C10Consts.g_no_offset = NO_OFFSET /\
+  (C10Consts.g_f_executable, C10Consts.g_f_readonly, C10Consts.g_f_zeroinit, C10Consts.g_f_comment, C10Consts.g_f_builtin, C10Consts.g_f_implicit)
+    = (F_EXECUTABLE, F_READONLY, F_ZEROINIT, F_COMMENT, F_BUILTIN, F_IMPLICIT) /\
+  (C10Consts.g_copy_pad_section, C10Consts.g_copy_pad_target) = (COPY_PAD_SECTION, COPY_PAD_TARGET) /\
+  (C10Consts.g_text_id, C10Consts.g_text_flags, C10Consts.g_text_align, C10Consts.g_text_order, C10Consts.g_text_offset)
+    = (sid text_section, TEXT_FLAGS, salign text_section, sorder text_section, soff text_section) /\
+  pad_name C10Consts.g_text_name = sname text_section /\
+  (forall h nm ord, Z.of_nat (length nm) <= MAX_NAME ->
+     exists s, In s (snd (new_section h nm 0 ord)) /\ salign s = C10Consts.g_new_section_align_of_0 /\ soff s = C10Consts.g_new_section_offset) /\
+  C10Consts.g_call_bytes = CALL_BYTES /\ Z.of_nat (length C10Consts.g_call_bytes) = CALL_LEN /\
+  (C10Consts.g_addrtab_align, C10Consts.g_addrtab_vsize_per_slot, C10Consts.g_addrtab_order) = (REG_SIZE, REG_SIZE, INT_MAX) /\
+  C10Consts.g_addrtab_name = addrtab_name /\ C10Consts.g_embed_label_size = ABS_LEN.
+Proof.
+  repeat (split; [vm_compute; reflexivity|]). split; [exact new_section_zero_align|]. repeat (split; [vm_compute; reflexivity|]). vm_compute; reflexivity.
+Qed.
+Print Assumptions C10_constants_match.
